@@ -246,6 +246,10 @@ def handle(req):
         return apply_lemma(req)
     if req['cmd'] == 'expr':
         return do_expr(req)
+    if req['cmd'] == 'taut':
+        return do_taut(req)
+    if req['cmd'] == 'resolve':
+        return do_resolve(req)
     raise ValueError(req['cmd'])
 
 
@@ -309,4 +313,71 @@ def do_expr(req):
         out['interps'] = run_under_all(mod, B)
     for opt in req.get('traces', ()):
         out['trace_opt' if opt else 'trace'] = modules.trace_module(mod, opt, B)
+    return out
+
+
+# ---------------------------------------------------------------- tautology prover
+def cf_json(t):
+    from proof_generation import tautology as TT
+    if isinstance(t, TT.CFBot):
+        return {'k': 'bot', 'neg': t.negated, 'c': []}
+    if isinstance(t, TT.CFVar):
+        return {'k': 'var', 'neg': t.negated, 'c': [], 'id': t.id}
+    return {'k': 'or' if isinstance(t, TT.CFOr) else 'and', 'neg': t.negated, 'c': [cf_json(t.left), cf_json(t.right)]}
+
+
+def do_taut(req):
+    from proof_generation import tautology as TT
+    B = Bridge()
+    t = Tautology()
+    pat = B.to_py(req['pat'])
+    out = {'out': 'ok', 'verdict': 'none', 'conc': B.to_json(pat), 'stages': [], 'stage_error': None}
+    try:
+        r = t.prove_tautology(pat)
+    except EXC as e:
+        out['out'] = 'raise:' + type(e).__name__
+        r = None
+    thunk = None
+    if r is not None:
+        out['verdict'] = 'true' if r[0] else 'false'
+        out['conc'] = B.to_json(r[1].conc)
+        thunk = r[1]
+    if req.get('stages'):
+        try:
+            npat = P.neg(pat)
+            cf, p1, p2 = t.to_conj_form(npat)
+            st = {'stage': 'conj', 'in': B.to_json(npat), 'out': B.to_json(TT.conj_to_pattern(cf)), 'cf': cf_json(cf),
+                  'pf1': B.to_json(p1.conc), 'pf2': B.to_json(p2.conc) if p2 is not None else None}
+            out['stages'].append(st)
+            if not isinstance(cf, TT.CFBot):
+                ng, q1, q2 = t.propag_neg(cf)
+                out['stages'].append({'stage': 'propag', 'in': st['out'], 'out': B.to_json(TT.conj_to_pattern(ng)), 'cf': cf_json(ng),
+                                      'pf1': B.to_json(q1.conc), 'pf2': B.to_json(q2.conc)})
+                cn, c1, c2 = t.to_cnf(ng)
+                out['stages'].append({'stage': 'cnf', 'in': out['stages'][-1]['out'], 'out': B.to_json(TT.conj_to_pattern(cn)), 'cf': cf_json(cn),
+                                      'pf1': B.to_json(c1.conc), 'pf2': B.to_json(c2.conc)})
+                cl, l1, l2 = t.to_clauses(cn)
+                out['stages'].append({'stage': 'clauses', 'in': out['stages'][-1]['out'], 'out': B.to_json(TT.clause_conjunctionto_pattern(cl)),
+                                      'cf': {'k': 'clauses', 'neg': False, 'c': [], 'cl': cl},
+                                      'pf1': B.to_json(l1.conc), 'pf2': B.to_json(l2.conc)})
+        except EXC as e:
+            out['stage_error'] = type(e).__name__ + ': ' + str(e)[:100]
+    if req.get('trace') and thunk is not None:
+        t._claims, t._proof_expressions = [thunk.conc], [thunk]
+        out['trace'] = modules.trace_module(t, False, B)
+    return out
+
+
+def do_resolve(req):
+    """start_resolution_algorithm on a clause list"""
+    B = Bridge()
+    t = Tautology()
+    out = {'out': 'ok', 'res': 'none', 'conc': {'t': 'ev', 'i': 0}}
+    try:
+        r = t.start_resolution_algorithm([list(c) for c in req['clauses']])
+        if r is not None:
+            out['res'] = 'true' if r[0] else 'false'
+            out['conc'] = B.to_json(r[1].conc)
+    except EXC as e:
+        out['out'] = 'raise:' + type(e).__name__
     return out
